@@ -211,6 +211,9 @@ def gen_plan(r):
             after.append(r.pick(titles))          # may be self / forward (cycle) / duplicate
         if r.p(3):
             after.append("no such title")
+        if r.p(4) and i:
+            # a reference that differs from an existing title only by surrounding white space names nothing
+            after.append(r.pick([" %s", "%s ", "%s\n", "\t%s"]) % r.pick(titles[:i]))
         if r.p(2):
             after.append(" ")
         if after:
